@@ -237,7 +237,8 @@ _IDX_DESIGN = np.stack([np.ones(10), np.linspace(-1.0, 1.5, 10) ** 2 + 0.3 * np.
 
 
 def idx_model(a=1.0, b=1.0):
-    return _IDX_DESIGN[:, 0] * a + _IDX_DESIGN[:, 1] * b
+    # self-contained (the source text is what a saved fit stores): same numbers as _IDX_DESIGN
+    return np.ones(10) * a + (np.linspace(-1.0, 1.5, 10) ** 2 + 0.3 * np.arange(10)) * b
 
 
 PROBLEMS = ["xy-lin", "xy-expo", "xy-big", "xy-tiny", "indexed", "hist"]
@@ -298,6 +299,8 @@ SEQUENCES = {
     "fit-displace": ["fit", "displace", "show"],
     "fit-asym": ["fit", "showA"],
     "fit-show-asym-show": ["fit", "show", "showA", "show"],
+    "fit-reload-show": ["fit", "reload", "show"],  # the fit restored from its own file, displayed without another do_fit
+    "fit-loadstate-show": ["fit", "loadstate", "show"],
 }
 ORDERS = {"rpd": ["report", "preface", "dict"], "dpr": ["dict", "preface", "report"]}
 
@@ -595,6 +598,21 @@ def run_show_case(problem, backend, v, fix, seqname, order, collect=None):
                         asym_known = None
                         stats["ops"] += 1
                         continue
+                    if step == "reload":
+                        _path = os.path.join(tmpdir, "reload.yml")
+                        fit.to_file(_path)
+                        fit = type(fit).from_file(_path)
+                        sh = Shower(fit, fixed, tmpdir)
+                        asym_known = None
+                        stats["ops"] += 2
+                        continue
+                    if step == "loadstate":
+                        _path = os.path.join(tmpdir, "state.yml")
+                        fit.save_state(_path)
+                        fit.load_state(_path)
+                        asym_known = None
+                        stats["ops"] += 2
+                        continue
                     if step == "displace":
                         free = [n for n in info["names"] if n not in fixed]
                         cur = dict(zip(info["names"], fit.parameter_values))
@@ -636,7 +654,7 @@ def run_show_case(problem, backend, v, fix, seqname, order, collect=None):
 
 
 def seq_names(tier):
-    return ["unfitted", "fit", "fit-show-refit", "fit-displace", "fit-asym"] + (["fit-show-asym-show"] if tier == "thorough" else [])
+    return ["unfitted", "fit", "fit-show-refit", "fit-displace", "fit-asym", "fit-reload-show", "fit-loadstate-show"] + (["fit-show-asym-show"] if tier == "thorough" else [])
 
 
 def run_show(res, problem, backend, v, fix, tier):
